@@ -1,397 +1,16 @@
 // C13 — transform / affineTransform, all four overloads, Box<Vec3<S>> x Matrix44<T>, S,T in {float,double}.
-// Oracle: exact integer / rational images of the 8 corners -> tight axis-aligned bound.
-//   * integer affine matrices on lattice boxes: every product and sum is a small integer, exact in S and T,
-//     so the result must EQUAL the exact bound;
-//   * projective matrices (w > 0 on all corners): numerators and w are small integers (exact), the only
-//     rounding is the final division x/w (correctly rounded, <= 1/2 ulp) and rounding is monotone, so
-//     min/max commute with it; tolerance fixed a priori at 2 ulp of the exact bound (DESIGN.md C13).
-// The out-parameter forms are called with `result` PRE-FILLED with an unrelated box (and, separately, with a
-// default-constructed result): the contract is "the transformed box is returned in result".
-#include "c13_common.hpp"
-#include <array>
+// The stages themselves (oracle, alphabets, error analysis) are in c13_xform.hpp, shared with c13_xform_int.cpp.
+#include "c13_xform.hpp"
 
 namespace c13 {
-namespace {
-
-struct IM { int a[3][3]; int t[3]; int w[4]; }; // p' = p*A + t ; w = p . w[0..2] + w[3]
-
-template <class T> Matrix44<T> mk (const IM& m)
-{
-    Matrix44<T> r;
-    for (int j = 0; j < 3; ++j) { for (int i = 0; i < 3; ++i) r[j][i] = (T) m.a[j][i]; r[j][3] = (T) m.w[j]; }
-    for (int i = 0; i < 3; ++i) r[3][i] = (T) m.t[i];
-    r[3][3] = (T) m.w[3];
-    return r;
-}
-std::string mstr (const IM& m)
-{
-    std::string s = "M44[";
-    for (int j = 0; j < 4; ++j)
-    {
-        s += j ? " | " : "";
-        for (int i = 0; i < 4; ++i)
-        {
-            int v = i < 3 ? (j < 3 ? m.a[j][i] : m.t[i]) : m.w[j];
-            s += (i ? " " : "") + std::to_string (v);
-        }
-    }
-    return s + "]";
-}
-template <class S> std::string b3 (const Box<Vec3<S>>& b) { return "{min=" + vstr<Vec3<S>> (b.min) + " max=" + vstr<Vec3<S>> (b.max) + "}"; }
-template <class S, class T> std::string tt () { return std::string ("Box3<") + TName<S>::n () + "> x M44<" + TName<T>::n () + ">"; }
-
-static const int FILL[5][3][3] = {
-    {{1, 1, 1}, {1, 1, 1}, {1, 1, 1}},
-    {{-1, -1, -1}, {-1, -1, -1}, {-1, -1, -1}},
-    {{2, 2, 2}, {2, 2, 2}, {2, 2, 2}},
-    {{2, -1, 1}, {1, 2, -1}, {-1, 1, 2}},
-    {{-1, 2, 2}, {2, -1, 1}, {1, 1, -1}}};
-static const int TQ[3][3] = {{0, 0, 0}, {1, -2, 2}, {-2, 1, -1}};
-
-struct LBox { int mn[3], mx[3]; };
-// exact fraction with positive denominator, compared by cross-multiplication (small integers: no overflow)
-struct Q
-{
-    long long n = 0, d = 1;
-    Q () {}
-    Q (long long nn, long long dd) : n (nn), d (dd) {}
-    bool operator< (const Q& o) const { return n * o.d < o.n * d; }
-    bool operator> (const Q& o) const { return o < *this; }
-    long double ld () const { return (long double) n / (long double) d; }
-    std::string str () const { return ex::Rat ((ex::i128) n, (ex::i128) d).str (); }
-};
-std::vector<LBox> lattice_boxes (bool nonempty, const std::vector<int>& coords)
-{
-    std::vector<LBox> v;
-    size_t n = coords.size ();
-    for (uint64_t k = 0; k < ex::ipow (n * n, 3); ++k)
-    {
-        LBox b; uint64_t x = k; bool ne = true;
-        for (int i = 0; i < 3; ++i) { int d = (int) (x % (n * n)); x /= n * n; b.mn[i] = coords[d % n]; b.mx[i] = coords[d / n]; ne = ne && b.mn[i] <= b.mx[i]; }
-        if (ne == nonempty) v.push_back (b);
-    }
-    return v;
-}
-
-// exact bound of the images of the 8 corners under an integer affine map
-void affine_bound (const IM& m, const LBox& b, int* omn, int* omx)
-{
-    for (int c = 0; c < 8; ++c)
-    {
-        int p[3] = {(c & 1) ? b.mx[0] : b.mn[0], (c & 2) ? b.mx[1] : b.mn[1], (c & 4) ? b.mx[2] : b.mn[2]};
-        for (int i = 0; i < 3; ++i)
-        {
-            int v = p[0] * m.a[0][i] + p[1] * m.a[1][i] + p[2] * m.a[2][i] + m.t[i];
-            if (c == 0 || v < omn[i]) omn[i] = v;
-            if (c == 0 || v > omx[i]) omx[i] = v;
-        }
-    }
-}
-
-template <class S> Box<Vec3<S>> prefill (int which)
-{
-    if (which == 0) return Box<Vec3<S>> (Vec3<S> (100, 100, 100), Vec3<S> (200, 200, 200));
-    if (which == 1) return Box<Vec3<S>> (Vec3<S> (-300, -300, -300), Vec3<S> (-250, -250, -250));
-    return Box<Vec3<S>> (); // default-constructed (how the library's own tests call it)
-}
-const char* prefill_name (int which) { return which == 0 ? "result pre-filled [100..200]^3" : which == 1 ? "result pre-filled [-300..-250]^3" : "result default-constructed"; }
-
-template <class S> bool eq_int (const Box<Vec3<S>>& r, const int* mn, const int* mx)
-{
-    for (int i = 0; i < 3; ++i) if (r.min[i] != (S) mn[i] || r.max[i] != (S) mx[i]) return false;
-    return true;
-}
-std::string ibox (const int* mn, const int* mx)
-{
-    return "{min=(" + std::to_string (mn[0]) + "," + std::to_string (mn[1]) + "," + std::to_string (mn[2]) + ") max=(" +
-           std::to_string (mx[0]) + "," + std::to_string (mx[1]) + "," + std::to_string (mx[2]) + ")}";
-}
-
-// one affine (matrix, box) case through the four overloads
-template <class S, class T> void affine_case (const IM& im, const Matrix44<T>& M, const LBox& lb, long long& trans)
-{
-    typedef Box<Vec3<S>> B;
-    B   bx (Vec3<S> ((S) lb.mn[0], (S) lb.mn[1], (S) lb.mn[2]), Vec3<S> ((S) lb.mx[0], (S) lb.mx[1], (S) lb.mx[2]));
-    int mn[3], mx[3];
-    affine_bound (im, lb, mn, mx);
-    auto in = [&] (const char* extra) { return tt<S, T> () + " box=" + b3 (bx) + " m=" + mstr (im) + (*extra ? std::string (" ") + extra : std::string ()); };
-    B r1 = transform (bx, M);
-    if (!eq_int (r1, mn, mx)) vf::R ().fail ("transform(box,m).affine", in (""), ibox (mn, mx), b3 (r1));
-    B r3 = affineTransform (bx, M);
-    if (!eq_int (r3, mn, mx)) vf::R ().fail ("affineTransform(box,m)", in (""), ibox (mn, mx), b3 (r3));
-    for (int pf = 0; pf < 3; ++pf)
-    {
-        B r2 = prefill<S> (pf); transform (bx, M, r2);
-        if (!eq_int (r2, mn, mx)) vf::R ().fail ("transform(box,m,result).affine", in (prefill_name (pf)), ibox (mn, mx), b3 (r2));
-        B r4 = prefill<S> (pf); affineTransform (bx, M, r4);
-        if (!eq_int (r4, mn, mx)) vf::R ().fail ("affineTransform(box,m,result)", in (prefill_name (pf)), ibox (mn, mx), b3 (r4));
-    }
-    // in-place use: `result` is the very object passed as `box` (both parameters are references, nothing forbids it)
-    {
-        B a1 = bx; transform (a1, M, a1);
-        if (!eq_int (a1, mn, mx)) vf::R ().fail ("transform(box,m,result).result-aliases-box", in ("transform(b, m, b)"), ibox (mn, mx), b3 (a1));
-        B a2 = bx; affineTransform (a2, M, a2);
-        if (!eq_int (a2, mn, mx)) vf::R ().fail ("affineTransform(box,m,result).result-aliases-box", in ("affineTransform(b, m, b)"), ibox (mn, mx), b3 (a2));
-        trans += 2;
-    }
-    // every lattice point of the box maps inside the returned box (integer arithmetic for the image)
-    for (int x = lb.mn[0]; x <= lb.mx[0]; ++x)
-        for (int y = lb.mn[1]; y <= lb.mx[1]; ++y)
-            for (int z = lb.mn[2]; z <= lb.mx[2]; ++z)
-            {
-                int p[3] = {x, y, z}; Vec3<S> img;
-                for (int i = 0; i < 3; ++i) img[i] = (S) (p[0] * im.a[0][i] + p[1] * im.a[1][i] + p[2] * im.a[2][i] + im.t[i]);
-                if (!r1.intersects (img))
-                    vf::R ().fail ("transform(box,m).contains-image-of-point", in ("") + " p=(" + std::to_string (x) + "," + std::to_string (y) + "," + std::to_string (z) + ")",
-                                   "image " + vstr<Vec3<S>> (img) + " inside", b3 (r1));
-            }
-    trans += 8;
-}
-
-template <class S, class T> bool affine_stage (bool thorough)
-{
-    const std::vector<LBox> boxes = lattice_boxes (true, {0, 1, 2, 3});
-    // matrices: 512 sparsity patterns x 5 fillings x 3 translations; thorough adds every translation of L(2)
-    // (125) for the generic filling FILL[3]
-    struct MI { unsigned pat, fill; int t[3]; };
-    std::vector<MI> mats;
-    for (auto& t : TQ) for (unsigned fill = 0; fill < 5; ++fill) for (unsigned pat = 0; pat < 512; ++pat) mats.push_back ({pat, fill, {t[0], t[1], t[2]}});
-    if (thorough)
-        for (int k = 0; k < 125; ++k)
-        {
-            int c[3]; ex::decode (k, 5, 3, c, -2);
-            bool dup = false; for (auto& t : TQ) dup = dup || (t[0] == c[0] && t[1] == c[1] && t[2] == c[2]);
-            if (!dup) for (unsigned pat = 0; pat < 512; ++pat) mats.push_back ({pat, 3, {c[0], c[1], c[2]}});
-        }
-    const uint64_t NM = mats.size ();
-    std::atomic<long long> trans (0), cases (0), c_neg (0), c_sparse (0), c_full (0), c_zero (0);
-    bool ok = vf::parallel_chunks (NM, 8, [&] (uint64_t lo, uint64_t hi, unsigned) {
-        long long l_trans = 0, l_neg = 0, l_sparse = 0, l_full = 0, l_zero = 0;
-        for (uint64_t k = lo; k < hi; ++k)
-        {
-            const unsigned pat = mats[k].pat, fill = mats[k].fill;
-            IM im; bool neg = false; int nz = 0;
-            for (int j = 0; j < 3; ++j) for (int i = 0; i < 3; ++i)
-            { im.a[j][i] = ((pat >> (j * 3 + i)) & 1) ? FILL[fill][j][i] : 0; if (im.a[j][i] < 0) neg = true; if (im.a[j][i]) ++nz; }
-            for (int i = 0; i < 3; ++i) { im.t[i] = mats[k].t[i]; im.w[i] = 0; }
-            im.w[3] = 1;
-            Matrix44<T> M = mk<T> (im);
-            for (auto& lb : boxes) affine_case<S, T> (im, M, lb, l_trans);
-            long long nb = (long long) boxes.size ();
-            if (nz == 0) l_zero += nb; else if (nz == 9) l_full += nb; else l_sparse += nb;
-            if (neg) l_neg += nb;
-        }
-        trans += l_trans; cases += (long long) (hi - lo) * (long long) boxes.size ();
-        c_neg += l_neg; c_sparse += l_sparse; c_full += l_full; c_zero += l_zero;
-    });
-    if (ok && thorough)
-    {   // every 3x3 block over {-1,0,1,2}, one translation, boxes with coordinates {0,2,3}
-        const std::vector<LBox> b2 = lattice_boxes (true, {0, 2, 3});
-        ok = vf::parallel_chunks (262144, 64, [&] (uint64_t lo, uint64_t hi, unsigned) {
-            long long l_trans = 0;
-            for (uint64_t k = lo; k < hi; ++k)
-            {
-                int d[9]; ex::decode (k, 4, 9, d, -1);
-                IM im;
-                for (int j = 0; j < 3; ++j) for (int i = 0; i < 3; ++i) im.a[j][i] = d[j * 3 + i];
-                for (int i = 0; i < 3; ++i) { im.t[i] = TQ[1][i]; im.w[i] = 0; }
-                im.w[3] = 1;
-                Matrix44<T> M = mk<T> (im);
-                for (auto& lb : b2) affine_case<S, T> (im, M, lb, l_trans);
-            }
-            trans += l_trans; cases += (long long) (hi - lo) * (long long) b2.size ();
-        });
-    }
-    vf::R ().add ("transitions", trans.load ()); vf::R ().add ("evaluations", cases.load ()); vf::R ().add ("states", cases.load ());
-    vf::R ().cls ("affine.negative-entry(a>=b branch)", c_neg); vf::R ().cls ("affine.sparse-block", c_sparse);
-    vf::R ().cls ("affine.full-block", c_full); vf::R ().cls ("affine.zero-block", c_zero);
-    return ok;
-}
-
-// ---- projective ---------------------------------------------------------------------------------------
-static const int BLK[8][3][3] = {
-    {{1, 0, 0}, {0, 1, 0}, {0, 0, 1}},  {{2, 0, 0}, {0, -1, 0}, {0, 0, 1}}, {{0, 1, 0}, {0, 0, 1}, {1, 0, 0}},
-    {{2, -1, 1}, {1, 2, -1}, {-1, 1, 2}}, {{-1, 2, 2}, {2, -1, 1}, {1, 1, -1}}, {{0, 0, 0}, {0, 0, 0}, {0, 0, 0}},
-    {{1, 1, 0}, {0, 0, 0}, {0, -1, 2}}, {{-2, 0, 1}, {0, 0, -1}, {0, 1, 0}}};
-
-template <class S, class T> bool projective_stage (bool)
-{
-    typedef Box<Vec3<S>> B;
-    const std::vector<LBox> boxes = lattice_boxes (true, {0, 1, 2, 3});
-    const int W33[3] = {1, 2, 10};
-    const uint64_t NM = 8ull * 3 * 64 * 3;
-    std::atomic<long long> trans (0), cases (0), skipped (0), c_extend (0);
-    double worst = 0; std::mutex mu;
-    bool ok = vf::parallel_chunks (NM, 4, [&] (uint64_t lo, uint64_t hi, unsigned) {
-        long long l_trans = 0, l_cases = 0, l_skip = 0; double l_worst = 0;
-        for (uint64_t k = lo; k < hi; ++k)
-        {
-            int blk = (int) (k % 8), ti = (int) ((k / 8) % 3), wc = (int) ((k / 24) % 64), w3 = (int) (k / 1536);
-            IM im;
-            for (int j = 0; j < 3; ++j) for (int i = 0; i < 3; ++i) im.a[j][i] = BLK[blk][j][i];
-            for (int i = 0; i < 3; ++i) im.t[i] = TQ[ti][i];
-            int d[3]; ex::decode (wc, 4, 3, d, -1);
-            im.w[0] = d[0]; im.w[1] = d[1]; im.w[2] = d[2]; im.w[3] = W33[w3];
-            if (im.w[0] == 0 && im.w[1] == 0 && im.w[2] == 0 && im.w[3] == 1) continue; // affine: other stage
-            Matrix44<T> M = mk<T> (im);
-            for (auto& lb : boxes)
-            {
-                // exact rational images of the corners; the case is in the domain only if w > 0 on all of them
-                Q rmn[3], rmx[3]; bool wpos = true;
-                for (int c = 0; c < 8 && wpos; ++c)
-                {
-                    int p[3] = {(c & 1) ? lb.mx[0] : lb.mn[0], (c & 2) ? lb.mx[1] : lb.mn[1], (c & 4) ? lb.mx[2] : lb.mn[2]};
-                    int w = p[0] * im.w[0] + p[1] * im.w[1] + p[2] * im.w[2] + im.w[3];
-                    if (w <= 0) { wpos = false; break; }
-                    for (int i = 0; i < 3; ++i)
-                    {
-                        Q v (p[0] * im.a[0][i] + p[1] * im.a[1][i] + p[2] * im.a[2][i] + im.t[i], w);
-                        if (c == 0 || v < rmn[i]) rmn[i] = v;
-                        if (c == 0 || v > rmx[i]) rmx[i] = v;
-                    }
-                }
-                if (!wpos) { ++l_skip; continue; }
-                ++l_cases;
-                // oracle self-check: the image of every lattice point of the box lies in the exact bound
-                for (int x = lb.mn[0]; x <= lb.mx[0]; ++x) for (int y = lb.mn[1]; y <= lb.mx[1]; ++y) for (int z = lb.mn[2]; z <= lb.mx[2]; ++z)
-                {
-                    int p[3] = {x, y, z}; int w = x * im.w[0] + y * im.w[1] + z * im.w[2] + im.w[3];
-                    for (int i = 0; i < 3; ++i)
-                    {
-                        Q v (p[0] * im.a[0][i] + p[1] * im.a[1][i] + p[2] * im.a[2][i] + im.t[i], w);
-                        if (w <= 0 || v < rmn[i] || v > rmx[i]) vf::R ().fail ("oracle.selfcheck.projective-hull", mstr (im), "inside", "outside");
-                    }
-                }
-                B bx (Vec3<S> ((S) lb.mn[0], (S) lb.mn[1], (S) lb.mn[2]), Vec3<S> ((S) lb.mx[0], (S) lb.mx[1], (S) lb.mx[2]));
-                auto in = [&] (const char* extra) { return tt<S, T> () + " box=" + b3 (bx) + " m=" + mstr (im) + (*extra ? std::string (" ") + extra : std::string ()); };
-                auto want = [&] () { std::string s = "{min=("; for (int i = 0; i < 3; ++i) s += (i ? "," : "") + rmn[i].str (); s += ") max=(";
-                                     for (int i = 0; i < 3; ++i) s += (i ? "," : "") + rmx[i].str (); return s + ")} within 2 ulp"; };
-                auto close = [&] (const B& r, double& w) {
-                    bool good = true;
-                    for (int i = 0; i < 3; ++i)
-                    {
-                        long double u1 = ex::ulps<S> (r.min[i], rmn[i].ld ()), u2 = ex::ulps<S> (r.max[i], rmx[i].ld ());
-                        if (!(u1 <= 2) || !(u2 <= 2)) good = false;
-                        else { if ((double) u1 > w) w = (double) u1; if ((double) u2 > w) w = (double) u2; }
-                    }
-                    return good;
-                };
-                B r1 = transform (bx, M);
-                if (!close (r1, l_worst)) vf::R ().fail ("transform(box,m).projective", in (""), want (), b3 (r1));
-                for (int pf = 0; pf < 3; ++pf)
-                {
-                    const B P = prefill<S> (pf);
-                    B r2 = P; transform (bx, M, r2);
-                    double dummy = 0;
-                    if (!close (r2, dummy))
-                    {
-                        // signature of the known defect: the caller's old `result` was extended instead of replaced
-                        B ext = P; ext.extendBy (r1);
-                        bool sig = !P.isEmpty () && same_box<Vec3<S>, Vec3<S>> (r2, ext);
-                        fail_lazy (sig ? "transform(box,m,result).projective-extends-prefilled-result" : "transform(box,m,result).projective",
-                                   [&] { return in (prefill_name (pf)); }, want, [&] { return b3 (r2); });
-                    }
-                }
-                {
-                    B a1 = bx; transform (a1, M, a1); // result aliases box on the projective path
-                    double dummy = 0;
-                    if (!close (a1, dummy)) fail_lazy ("transform(box,m,result).result-aliases-box", [&] { return in ("transform(b, m, b)"); }, want, [&] { return b3 (a1); });
-                }
-                l_trans += 5;
-            }
-        }
-        trans += l_trans; cases += l_cases; skipped += l_skip;
-        std::lock_guard<std::mutex> g (mu); if (l_worst > worst) worst = l_worst;
-    });
-    vf::R ().add ("transitions", trans.load ()); vf::R ().add ("evaluations", cases.load ()); vf::R ().add ("states", cases.load ());
-    vf::R ().add ("projective_cases_outside_domain(w<=0)", skipped.load ());
-    vf::R ().cls ("projective.w-positive-on-all-corners", cases.load ());
-    vf::R ().note_max ("worst projective bound error (ulp)", worst);
-    return ok;
-}
-
-// ---- empty -> empty, infinite -> infinite, every overload ---------------------------------------------------
-template <class S, class T> bool degenerate_stage (bool)
-{
-    typedef Box<Vec3<S>> B;
-    std::vector<B> empties; std::vector<std::string> names;
-    for (auto& lb : lattice_boxes (false, {0, 1, 2, 3}))
-        empties.push_back (B (Vec3<S> ((S) lb.mn[0], (S) lb.mn[1], (S) lb.mn[2]), Vec3<S> ((S) lb.mx[0], (S) lb.mx[1], (S) lb.mx[2])));
-    empties.push_back (B ());
-    B inf; inf.makeInfinite ();
-    std::vector<IM> ms;
-    for (int blk : {0, 3, 5}) for (int ti : {0, 1}) for (int wk = 0; wk < 3; ++wk)
-    {
-        IM im;
-        for (int j = 0; j < 3; ++j) for (int i = 0; i < 3; ++i) im.a[j][i] = BLK[blk][j][i];
-        for (int i = 0; i < 3; ++i) im.t[i] = TQ[ti][i];
-        const int WC[3][4] = {{0, 0, 0, 1}, {0, 0, 0, 2}, {1, 0, 2, 3}};
-        for (int i = 0; i < 4; ++i) im.w[i] = WC[wk][i];
-        ms.push_back (im);
-    }
-    long long trans = 0, n_e = 0, n_i = 0;
-    for (auto& im : ms)
-    {
-        const bool  affine = im.w[0] == 0 && im.w[1] == 0 && im.w[2] == 0 && im.w[3] == 1;
-        Matrix44<T> M = mk<T> (im);
-        for (size_t k = 0; k <= empties.size (); ++k)
-        {
-            const bool isinf = k == empties.size ();
-            const B&   bx = isinf ? inf : empties[k];
-            const char* cl = isinf ? "infinite-input" : "empty-input";
-            auto good = [&] (const B& r) { return isinf ? r.isInfinite () : r.isEmpty (); };
-            auto in = [&] (const char* extra) { return tt<S, T> () + " box=" + (isinf ? std::string ("makeInfinite()") : b3 (bx)) + " m=" + mstr (im) + (*extra ? std::string (" ") + extra : std::string ()); };
-            const char* want = isinf ? "an infinite box" : "an empty box";
-            B r1 = transform (bx, M);
-            if (!good (r1)) vf::R ().fail (std::string ("transform(box,m).") + cl, in (""), want, b3 (r1));
-            ++trans;
-            if (affine) { B r3 = affineTransform (bx, M); ++trans; if (!good (r3)) vf::R ().fail (std::string ("affineTransform(box,m).") + cl, in (""), want, b3 (r3)); }
-            for (int pf = 0; pf < 3; ++pf)
-            {
-                if (pf == 2 && !isinf) continue; // a default-constructed result is already empty: says nothing
-                const B P = prefill<S> (pf);
-                B r2 = P; transform (bx, M, r2); ++trans;
-                if (!good (r2))
-                {   // signature of the known defect: early return without touching `result`
-                    bool sig = same_box<Vec3<S>, Vec3<S>> (r2, P);
-                    fail_lazy (std::string ("transform(box,m,result).") + cl + (sig ? "-result-untouched" : ""), [&] { return in (prefill_name (pf)); }, [&] { return std::string (want); }, [&] { return b3 (r2); });
-                }
-                if (affine)
-                {
-                    B r4 = P; affineTransform (bx, M, r4); ++trans;
-                    if (!good (r4))
-                    {
-                        bool sig = same_box<Vec3<S>, Vec3<S>> (r4, P);
-                        vf::R ().fail (std::string ("affineTransform(box,m,result).") + cl + (sig ? "-result-untouched" : ""), in (prefill_name (pf)), want, b3 (r4));
-                    }
-                }
-            }
-            if (isinf) ++n_i; else ++n_e;
-        }
-    }
-    vf::R ().add ("transitions", trans); vf::R ().add ("evaluations", n_e + n_i); vf::R ().add ("states", n_e + n_i);
-    vf::R ().cls ("transform.empty-input", n_e); vf::R ().cls ("transform.infinite-input", n_i);
-    return true;
-}
-
-template <class S, class T> bool all_stages (bool thorough)
-{
-    bool ok = true;
-    ok &= affine_stage<S, T> (thorough);
-    ok &= projective_stage<S, T> (thorough);
-    ok &= degenerate_stage<S, T> (thorough);
-    return ok;
-}
-
-} // namespace
 
 bool run_transforms (bool thorough)
 {
     bool ok = true;
-    ok &= all_stages<float, float> (thorough);
-    ok &= all_stages<double, double> (thorough);
-    ok &= all_stages<float, double> (thorough);
-    ok &= all_stages<double, float> (thorough);
+    ok &= xf::all_stages<float, float> (thorough);
+    ok &= xf::all_stages<double, double> (thorough);
+    ok &= xf::all_stages<float, double> (thorough);
+    ok &= xf::all_stages<double, float> (thorough);
     return ok;
 }
 
